@@ -166,6 +166,9 @@ _EXTRA_BATCHES = {
                           priorities=['todo_empty', 'todo_empty', 'doing_empty', 'doing_empty', 'crew_idle'], proc_delays=[0.0, 0.1, 1.0], git_fail=(1, 40),
                           cb_delays=[0, 0.3, 1.0, 2.0]),
                  runs=dict(quick=300, thorough=15000))],
+    # the real worker (worker.cluster.execute, worker.Context.run) reporting runs that fail inside the algorithm
+    'C05': [dict(name='real-workers-failing-runs', world='worlds.realw', cfg=dict(prop='C05', faults=False, failing=True, events=5),
+                 runs=dict(quick=160, thorough=8000), chunk=4, require=['handed', 'real_outcome_reported_right'])],
     'C18': [pipe('pipe-history', 700, 30000, prop='C18', faults=False, events=12, outcome=dict(success=4, failure=2, invalid=2)),
             pipe('pipe-history-faults', 400, 20000, prop='C18', faults=True, net=True, events=12, mix=MIX_UPDATE, record_on_run=True)],
     'C20': [dict(name='pipe-timers', world='worlds.timer', cfg=dict(prop='C20', faults=False), runs=dict(quick=500, thorough=20000))],
